@@ -242,7 +242,7 @@ fn perform_exp_for_small_power(span: &mut SpanBuilder, pow: u64) {
 /// Appends a sequence of operations to calculate the base 2 integer logarithm of the stack top
 /// element, using non-deterministic technique (i.e. it takes help of advice provider).
 ///
-/// This operation takes 44 VM cycles.
+/// This operation takes 56 VM cycles.
 ///
 /// # Errors
 /// Returns an error if the logarithm argument (top stack element) equals ZERO.
@@ -261,10 +261,21 @@ pub fn ilog2(span: &mut SpanBuilder) -> Result<Option<CodeBlock>, AssemblyError>
         MovUp2, U32split, MovUp2, U32split,
         // => [pow2_high, pow2_low, n_high, n_low, ilog2, ...]
 
-        // only one of the two halves in pow2 has a bit set, drop the other (9 cycles)
+        // only one of the two halves in pow2 has a bit set, drop the other (6 cycles)
         Dup1, Eqz, Dup0, MovDn3,
         // => [drop_low, pow2_high, pow2_low, drop_low, n_high, n_low, ilog2, ...]
-        CSwap, Drop, MovDn3, CSwap, Drop,
+        CSwap, Drop,
+        // => [pow2_half, drop_low, n_high, n_low, ilog2, ...]
+
+        // keep the matching half of n; when it is the low half, the high half must be zero
+        // (9 cycles)
+        MovDn3, Dup0, MovDn3, CSwap,
+        // => [n_other_half, n_half, drop_low, pow2_half, ilog2, ...]
+        MovUp2, Not, Mul, Eqz, Assert(0),
+        // => [n_half, pow2_half, ilog2, ...]
+
+        // the bit of pow2_half must be set in n_half, i.e. pow2_half <= n_half (6 cycles)
+        Dup1, Dup1, U32and, Dup2, Eq, Assert(0),
         // => [n_half, pow2_half, ilog2, ...]
 
         // set all bits to 1 lower than pow2_half (00010000 -> 00011111)
